@@ -119,7 +119,7 @@ register("C13", module="cachechecks", fn="case_c13", replay="replay_harness", bi
 
 register("C17", module="schedchecks", fn="case_c17", replay="replay_c17", binaries=("simplz",),
          cases={"quick": 40, "thorough": 1500}, budget={"quick": 240, "thorough": 3000}, level="exploration",
-         rule="case = a subincluded build_defs exporting nested list/dict globals and functions returning list/dict literals, and 2-5 packages that each apply 0-3 idioms from a catalogue of 35 mutation / re-ordering forms (index and key assignment at depth 1-2, +=, sorted, reversed, aliasing through locals, comprehensions, on globals, on nested values and on values returned by exported functions) and then define a target whose attribute prints everything the build_defs exports; every package is first parsed alone, then all packages that parse alone are parsed together in 4 (quick) / 10 (thorough) seeded schedules with statement-level yields inside the interpreter, permuted request order and 1-8 parse threads; oracle: each package defines exactly what it defines alone; distinct_nontrivial = distinct schedule traces of joint parses",
+         rule="case = a subincluded build_defs exporting nested list/dict globals and functions returning list/dict literals, and 2-5 packages that each apply 0-3 idioms from a catalogue of 44 mutation / re-ordering forms (index and key assignment at depth 1-2, +=, sorted, reversed, aliasing through locals, comprehensions, on globals, on nested values and on values returned by exported functions) and then define a target whose attribute prints everything the build_defs exports; every package is first parsed alone, then all packages that parse alone are parsed together in 4 (quick) / 10 (thorough) seeded schedules with statement-level yields inside the interpreter, permuted request order and 1-8 parse threads; oracle: each package defines exactly what it defines alone; distinct_nontrivial = distinct schedule traces of joint parses",
          assumptions=["the program space is a seeded catalogue, not all programs: this decides the order/concurrency half of the property", "interleaving inside the interpreter is at statement granularity (named extra yield sites at interpretStatements)"],
          components={"real": REAL_WHOLE, "stub": STUB_WHOLE})
 
